@@ -17,10 +17,12 @@ import (
 	"fmt"
 	"io"
 	"log/slog"
+	"math"
 	"net"
 	"os"
 	"os/user"
 	"sort"
+	"strconv"
 	"strings"
 	"sync"
 	"time"
@@ -70,6 +72,8 @@ func userCode(u string) int {
 		return 2
 	case "bob":
 		return 3
+	case security.SubmitSideMatchSessionFQU:
+		return 4
 	}
 	return 99
 }
@@ -240,6 +244,8 @@ func authzVariant(name string) (bool, []Triple) {
 	case "users": // alice and the OS user get WRITE and DAEMON, anonymous gets READ
 		add([]string{"READ"}, []string{addr1}, []string{"", osUser, "alice", "bob"})
 		add([]string{"WRITE", "DAEMON"}, []string{addr1}, []string{osUser, "alice"})
+	case "claims": // the match-session identity of a claim and alice are DAEMONs and may WRITE
+		add([]string{"READ", "WRITE", "DAEMON"}, []string{addr1}, []string{security.SubmitSideMatchSessionFQU, "alice"})
 	case "empty":
 	}
 	return true, out
@@ -261,6 +267,8 @@ type ImportSpec struct {
 	Authn  bool   `json:"authn"`
 	User   string `json:"user"`
 	Forged bool   `json:"forged,omitempty"` // the importer marks it Authenticated although nothing ran
+	Valid  []int  `json:"valid,omitempty"`  // ValidCommands carried by the entry's policy
+	Mint   bool   `json:"mint,omitempty"`   // create it with security.MintClaimSession (a startd's claim session)
 }
 type ConnSpec struct {
 	Peer     string     `json:"peer"`
@@ -298,6 +306,7 @@ type Inv struct {
 	User    string
 	Resumed bool
 	Sid     int
+	Valid   []int // Negotiation.ValidCommands, parsed
 	EncReal bool
 	at      *Tables // the tables in force at the moment of the call
 }
@@ -305,9 +314,33 @@ type Inv struct {
 func (i Inv) term() string {
 	neg := "None"
 	if i.HasNeg {
-		neg = fmt.Sprintf("(Some (%s, %s, %d, %s, %d))", core.Bool(i.Authn), core.Bool(i.Enc), userCode(i.User), core.Bool(i.Resumed), i.Sid)
+		neg = fmt.Sprintf("(Some (%s, %s, %d, %s, %d, %s))", core.Bool(i.Authn), core.Bool(i.Enc), userCode(i.User), core.Bool(i.Resumed), i.Sid, zlist(i.Valid))
 	}
 	return fmt.Sprintf("(Build_oinv %d %s %s %s %s)", i.Handler, core.Bool(i.Raw), core.Z(int64(i.Cmd)), neg, core.Bool(i.EncReal))
+}
+
+func zlist(v []int) string {
+	var xs []string
+	for _, x := range v {
+		xs = append(xs, core.Z(int64(x)))
+	}
+	return core.List(xs)
+}
+func parseCmds(s string) []int {
+	var out []int
+	for _, f := range strings.Split(s, ",") {
+		if n, err := strconv.Atoi(strings.TrimSpace(f)); err == nil {
+			out = append(out, n)
+		}
+	}
+	return out
+}
+func joinCmds(v []int) string {
+	var xs []string
+	for _, x := range v {
+		xs = append(xs, strconv.Itoa(x))
+	}
+	return strings.Join(xs, ",")
 }
 
 type sessInfo struct {
@@ -460,6 +493,7 @@ func (r *caseRun) handler(id int) server.HandlerFunc {
 		if n := c.Negotiation; n != nil {
 			inv.HasNeg, inv.Authn, inv.Enc, inv.User, inv.Resumed = true, n.Authentication, n.Encryption, n.User, n.SessionResumed
 			inv.Sid = r.sidIndex(n.SessionId)
+			inv.Valid = parseCmds(n.ValidCommands)
 		}
 		inv.at = cr.tables
 		cr.invs = append(cr.invs, inv)
@@ -995,29 +1029,70 @@ func runCase(spec *CaseSpec) (term string, checks int, fails []fail) {
 			evs = append(evs, c)
 			obs = append(obs, o)
 		case ev.Import != nil:
+			im := ev.Import
 			importMu.Lock()
 			importCounter++
-			sid := fmt.Sprintf("verif-c05-import-%d", importCounter)
+			n := importCounter
 			importMu.Unlock()
+			sid := fmt.Sprintf("verif-c05-import-%d", n)
+			if im.Mint {
+				// a startd-style claim session, created by the library itself
+				mc, err := security.MintClaimSession(security.GetSessionCache(), security.MintClaimOptions{
+					Sinful: "<10.9.9.9:9618?sock=c05>", Birthdate: 1700000000, SequenceNum: n,
+					PeerFQU: im.User, ValidCommands: im.Valid,
+				})
+				if err != nil {
+					r.fails = append(r.fails, fail{"harness-mint-failed", err.Error()})
+					continue
+				}
+				sid = mc.SessionID()
+			} else {
+				data, proto, has := keyBytes(im.Key)
+				var ki *security.KeyInfo
+				if has {
+					ki = &security.KeyInfo{Data: data, Protocol: proto}
+				}
+				pol := classad.New()
+				if im.Authn {
+					_ = pol.Set("Authenticated", true)
+				}
+				if im.User != "" {
+					_ = pol.Set("User", im.User)
+				}
+				if len(im.Valid) > 0 {
+					_ = pol.Set("ValidCommands", joinCmds(im.Valid))
+				}
+				security.GetSessionCache().Store(security.NewSessionEntry(sid, addr1, ki, pol, time.Now().Add(time.Hour), 30*time.Minute, ""))
+			}
 			idx := r.sidIndex(sid)
 			si := r.sess[idx-1]
-			data, proto, has := keyBytes(ev.Import.Key)
-			var ki *security.KeyInfo
-			if has {
-				ki = &security.KeyInfo{Data: data, Protocol: proto}
-				si.key = data
+			// the model's entry is read back from what is really in the cache
+			e, ok := security.GetSessionCache().Lookup(sid)
+			if !ok {
+				r.fails = append(r.fails, fail{"harness-import-missing", sid})
+				continue
 			}
-			pol := classad.New()
-			if ev.Import.Authn {
-				_ = pol.Set("Authenticated", true)
+			kk := "KNone"
+			if ki := e.KeyInfo(); ki != nil {
+				aes := ki.Protocol == "AES" || ki.Protocol == "AESGCM"
+				switch {
+				case !aes:
+					kk = "KOther"
+				case len(ki.Data) == 32:
+					kk = "KAes"
+					si.key = ki.Data
+				case len(ki.Data) == 0:
+					kk = "KAesEmpty"
+				default:
+					kk = "KAesBadLen"
+				}
 			}
-			if ev.Import.User != "" {
-				_ = pol.Set("User", ev.Import.User)
-			}
-			si.user, si.authReal = ev.Import.User, ev.Import.Authn && !ev.Import.Forged
-			security.GetSessionCache().Store(security.NewSessionEntry(sid, addr1, ki, pol, time.Now().Add(time.Hour), 30*time.Minute, ""))
-			kk := map[string]string{"none": "KNone", "aes": "KAes", "badlen": "KAesBadLen", "empty": "KAesEmpty", "other": "KOther"}[ev.Import.Key]
-			evs = append(evs, fmt.Sprintf("(TImport %d (Build_sentry %s %s %d %s))", idx, kk, core.Bool(ev.Import.Authn), userCode(ev.Import.User), core.Bool(si.authReal)))
+			authn, _ := e.Policy().EvaluateAttrBool("Authenticated")
+			usr, _ := e.Policy().EvaluateAttrString("User")
+			vc, _ := e.Policy().EvaluateAttrString("ValidCommands")
+			// possession of a claim secret is what authenticates a minted session
+			si.user, si.authReal = usr, authn && !im.Forged
+			evs = append(evs, fmt.Sprintf("(TImport %d (Build_sentry %s %s %d %s %s))", idx, kk, core.Bool(authn), userCode(usr), zlist(parseCmds(vc)), core.Bool(si.authReal)))
 		case ev.Drop > 0:
 			if ev.Drop <= len(r.sess) {
 				security.GetSessionCache().Invalidate(r.sess[ev.Drop-1].sid)
@@ -1184,6 +1259,60 @@ func generate(c *core.Ctx) []*CaseSpec {
 				}
 			}
 		}
+	}
+	// (6) claim-style sessions whose cache entry carries ValidCommands (named, not named, absent),
+	// installed directly or minted by security.MintClaimSession, resumed while the CURRENT
+	// authorizer allows or denies the identity; the table changes between two resumptions
+	type azpair struct{ a, b string }
+	for _, mint := range []bool{false, true} {
+		for _, u := range []string{"alice", ""} {
+			if u == "" && !mint {
+				continue
+			}
+			for _, c1 := range []int{cmdP, cmdA, cmdAE, cmdN} {
+				for vi, valid := range [][]int{nil, {c1}, {cmdE, c1, cmdR}, {cmdI}, {cmdP, cmdA, cmdE, cmdI, cmdAE, cmdN}} {
+					for _, ap := range []azpair{{"claims", "empty"}, {"empty", "claims"}, {"claims", "readonly"}, {"none", "empty"}, {"users", "users"}} {
+						if quick && (vi == 3 || ap.a == "users") && mint {
+							continue
+						}
+						ta, tb := withAuthz(base, ap.a), withAuthz(base, ap.b)
+						imp := &ImportSpec{Key: "aes", Authn: true, User: u, Valid: valid, Mint: mint}
+						r1 := &ConnSpec{Peer: addr1, Kind: "resume", ResumeOf: 1, Cmds: []int{c1, cmdAE}, Tables: 0}
+						r2 := &ConnSpec{Peer: addr1, Kind: "resume", ResumeOf: 1, Cmds: []int{c1, cmdA}, Tables: 1}
+						// and inside one kept-alive connection: the first handler swaps the table
+						r3 := &ConnSpec{Peer: addr1, Kind: "resume", ResumeOf: 1, Cmds: []int{cmdP, c1}, Tables: 0, Steps: []StepSpec{{Ret: "ka", Tables: ip(1)}}}
+						cl := "claim-valid/installed"
+						if mint {
+							cl = "claim-valid/minted"
+						}
+						g.add(&CaseSpec{Class: cl, Tables: []*Tables{ta, tb}, Events: []Event{{Import: imp}, {Conn: r1}, {Conn: r2}, {Conn: r3}}})
+					}
+				}
+			}
+		}
+	}
+	// (7) command integers across the int32/int64 boundary: CEDAR integers are 64-bit, so a client
+	// may name registered+2^32 etc.; none of them is a registered command and the handler and the
+	// policy must be looked up under the same key
+	var wide []int
+	for _, x := range []int{cmdAE, cmdA, cmdR, cmdP} {
+		wide = append(wide, x+1<<32, x-1<<32, x+1<<33, x+math.MinInt64)
+	}
+	wide = append(wide, 1<<31, 1<<32, -1, math.MaxInt64, math.MinInt64, math.MaxInt32+1+cmdAE, 0)
+	tw := withAuthz(base, "none")
+	for _, w := range wide {
+		for _, k := range []kind{kinds[0], kinds[3], kinds[4]} {
+			if k.Kind == "honest" && w < 0 {
+				continue // the client library replaces a negative command by DC_AUTHENTICATE
+			}
+			g.add(&CaseSpec{Class: "wide/first", Tables: []*Tables{tw}, Events: []Event{{Conn: connOf(k, []int{w, cmdP}, 0)}}})
+			g.add(&CaseSpec{Class: "wide/follow-on", Tables: []*Tables{tw}, Events: []Event{{Conn: connOf(k, []int{cmdP, w, cmdP}, 0)}}})
+		}
+		g.add(&CaseSpec{Class: "wide/raw", Tables: []*Tables{tw}, Events: []Event{{Conn: &ConnSpec{Peer: addr1, Kind: "raw", Cmds: []int{w}}}}})
+		first := connOf(kinds[0], []int{cmdP}, 0)
+		first.Steps = []StepSpec{{Ret: "done"}}
+		g.add(&CaseSpec{Class: "wide/resumed", Tables: []*Tables{tw}, Events: []Event{{Conn: first}, {Conn: &ConnSpec{Peer: addr1, Kind: "resume", ResumeOf: 1, Cmds: []int{w, cmdP}}}}})
+		g.add(&CaseSpec{Class: "wide/resumed-unauth", Tables: []*Tables{tw}, Events: []Event{{Conn: func() *ConnSpec { c := connOf(kinds[1], []int{cmdP}, 0); c.Steps = []StepSpec{{Ret: "done"}}; return c }()}, {Conn: &ConnSpec{Peer: addr1, Kind: "resume", ResumeOf: 1, Cmds: []int{w, cmdP}}}}})
 	}
 	return g.specs
 }
